@@ -6,7 +6,7 @@ import itertools
 import os
 
 from vf.explore.deviate import explore, PlanHook, Run
-from vf.harness import use_world, outcome, freeze, sample, guarded
+from vf.harness import use_world, outcome, freeze, sample, guarded, add_histories, history_of
 from vf.simk.world import World, FD
 
 ID = "C14"
@@ -247,12 +247,12 @@ def run(ctx):
     cases = build_cases(ctx.thorough)
     n = max(1, len(cases) // (ctx.ncpu * 4))
     chunks = [(ctx.seed, cases[i:i + n]) for i in range(0, len(cases), n)]
-    res = [r for ch in ctx.pmap(worker, chunks, chunk=1) for r in ch]
+    res = [r for ch in ctx.pmap_fresh(worker, chunks) for r in ch]
     viols, kinds = [], {}
-    for c, bad in zip(cases, res):
+    for _i, (c, bad) in enumerate(zip(cases, res)):
         kinds[c[0]] = kinds.get(c[0], 0) + 1
         for cause, msg in bad:
-            viols.append({"cause": cause, "msg": msg, "case": list(c)})
+            viols.append({"cause": cause, "msg": msg, "case": list(c), "_idx": _i})
     nf, fv = f_part(ctx, 2)
     viols += fv
     cov = {"evaluations": len(cases) + nf, "distinct_nontrivial": len({repr(c) for c in cases}) + nf - 1,
@@ -261,16 +261,17 @@ def run(ctx):
                    "a chosen access; all cases distinct by construction",
            "per_dimension": kinds, "fd_close_plans": nf, "flag_words": 256, "exhaustive": True,
            "samples": [list(c) for c in sample(cases, 6)]}
-    return {"coverage": cov, "violations": viols,
+    return {"coverage": cov, "violations": add_histories(viols, cases, n, list),
             "assumptions": ["access mode 3: any of the five mode strings is accepted, failing is not",
                             "target 'X (deleted)' where only X exists: psutil's documented heuristic (report X) is accepted, as is omitting it"]}
 
 
 def replay(ctx, case):
-    if case[0] == "f":
+    if not isinstance(case, dict) and case[0] == "f":
         r = f_run((ctx.seed, tuple(tuple(x) for x in case[1])))
         return {"violated": bool(r["bad"]), "viols": r["bad"]}
     w, p = mk_world(ctx.seed)
     use_world(w)
-    bad = guarded(run_case, tuple(case), (w, p))
+    for c in history_of(case):
+        bad = guarded(run_case, tuple(c), (w, p))
     return {"violated": bool(bad), "viols": bad}
